@@ -1,81 +1,113 @@
 #!/bin/bash
-# Re-runs the unbounded-N safety argument for SingleFlightInbound (C11), see design.d/C11-proof.md.
-#
+# Re-runs the unbounded-N safety arguments for both single-flight protocols of C11, see design.d/C11-proof.md:
+#   SFI = SingleFlightInbound  (SFI_IndInv.tla, SFI_IndInv_proofs.tla, SFI_IndInv_neg.tla, SFI_IndInv_3.cfg)
+#   SFS = SingleFlightSubgraph (SFS_IndInv.tla, SFS_IndInv_proofs.tla, SFS_IndInv_neg.tla, SFS_IndInv_3.cfg)
+# For each of the two:
 #   1. TLC   : IndInv (and the six safety properties) hold in every reachable state for N = 3
 #              (sanity: the invariant is not vacuous / not too strong on the reachable states).
-#   2. TLAPS : SFI_IndInv_proofs.tla from an EMPTY fingerprint cache - Init => IndInv,
-#              IndInv /\ [Next]_vars => IndInv', IndInv => Safety, Spec => []Safety for arbitrary N \in Nat.
-#   3. (--neg) negative control: the same step proof WITHOUT the assumption Fixed = TRUE must fail
-#              (SFI_IndInv_neg.tla; the pinned protocol is not safe, so the step must not be provable).
+#   2. TLAPS : <X>_IndInv_proofs.tla from an EMPTY fingerprint cache - Init => IndInv,
+#              IndInv /\ [Next]_vars => IndInv', IndInv => Safety, Spec => []Safety for arbitrary N \in Nat;
+#              tlapm --summary must report no missing / omitted proof.
+#   3. (--neg) negative control: the step obligations that depend on the repair, WITHOUT the fact
+#              Fixed = TRUE, must be rejected (<X>_IndInv_neg.tla: exactly the 2 *_NoFix lemmas fail).
 #
-# Exit 0 iff every part succeeded.  Runs in a scratch copy (the tools litter), removes it afterwards.
+# Exit 0 iff every part succeeded; prints "All <n> obligations proved" per module and a final "RESULT: PASS".
+# Runs in a scratch copy (the tools litter), removes it afterwards.
+# Usage: check_sfi_indinv.sh [--neg] [sfi|sfs]      (default: both protocols)
 # Tunables: THREADS (default 8), STRETCH (tlapm timeout multiplier, default 3 - the box is shared),
-#           KEEP=1 keeps the scratch dir.   Measured: TLC 6 s, tlapm 80 s (load average 65), total < 2 min.
+#           KEEP=1 keeps the scratch dir.
+# Measured (load average 50-65): SFI TLC 6-19 s + tlapm 75 s, SFS TLC 7 s + tlapm 41 s; --neg adds 40 s each;
+#           whole script with --neg about 4 min.
 set -u
 HERE="$(cd "$(dirname "$0")" && pwd)"
 THREADS="${THREADS:-8}"
 STRETCH="${STRETCH:-3}"
 NEG=0
-[ "${1:-}" = "--neg" ] && NEG=1
+WHICH="sfi sfs"
+for a in "$@"; do
+  case "$a" in
+    --neg) NEG=1 ;;
+    sfi|SFI) WHICH="sfi" ;;
+    sfs|SFS) WHICH="sfs" ;;
+    *) echo "usage: $0 [--neg] [sfi|sfs]"; exit 2 ;;
+  esac
+done
 
 S="$(mktemp -d /tmp/sfi-indinv.XXXXXX)"
 cleanup() { [ "${KEEP:-0}" = "1" ] && echo "scratch kept: $S" || rm -rf "$S"; }
 trap cleanup EXIT
-cp "$HERE/SingleFlightInbound.tla" "$HERE/SFI_IndInv.tla" "$HERE/SFI_IndInv_proofs.tla" \
-   "$HERE/SFI_IndInv_neg.tla" "$HERE/SFI_IndInv_3.cfg" "$S/" || exit 2
+cp "$HERE/SingleFlightInbound.tla" "$HERE/SingleFlightSubgraph.tla" \
+   "$HERE"/SFI_IndInv*.tla "$HERE"/SFS_IndInv*.tla "$HERE/SFI_IndInv_3.cfg" "$HERE/SFS_IndInv_3.cfg" "$S/" || exit 2
 cd "$S" || exit 2
 rc=0
+total=0
+parts=""
 
-echo "== 1. TLC: IndInv + Safety are invariants of SingleFlightInbound, N = 3, Fixed = TRUE"
-t0=$(date +%s)
-timeout 300 tlc -workers "$THREADS" -metadir "$S/md" -config SFI_IndInv_3.cfg SFI_IndInv.tla > tlc.log 2>&1
-grep -E "states generated|No error has been found|Error:|is violated|Assumption" tlc.log | tail -4
-if grep -q "Model checking completed. No error has been found." tlc.log; then
-  echo "   TLC OK ($(( $(date +%s) - t0 )) s)"
-else
-  echo "   TLC FAILED (see below)"; tail -30 tlc.log; rc=1
-fi
+# check_one <PREFIX> <base module> <what the negative control drops>
+check_one() {
+  local P="$1" BASE="$2" NEGWHAT="$3" t0 trc n
 
-echo "== 2. TLAPS: inductive invariant for arbitrary N (empty cache, threads=$THREADS, stretch=$STRETCH)"
-t0=$(date +%s)
-timeout 540 tlapm --threads "$THREADS" --stretch "$STRETCH" --cleanfp --cache-dir "$S/cache" \
-        SFI_IndInv_proofs.tla > tlapm.log 2>&1
-trc=$?
-grep -E "obligations? (proved|failed)" tlapm.log
-if [ $trc -eq 0 ] && grep -Eq "All [0-9]+ obligations? proved" tlapm.log; then
-  echo "   TLAPS OK ($(( $(date +%s) - t0 )) s)"
-  # no proof may be missing or omitted (tlapm --summary lists missing_proofs_count / omitted_proofs_count if any)
-  timeout 120 tlapm --summary --cache-dir "$S/cache" SFI_IndInv_proofs.tla > summary.log 2>&1
-  grep -E "obligations_count|missing_proofs_count|omitted_proofs_count" summary.log | head -3
-  if ! grep -q "obligations_count" summary.log || grep -Eq "missing_proof|omitted_proof" summary.log; then
-    echo "   but the proof is incomplete (missing / omitted steps)"; rc=1
-  else
-    echo "   no missing / omitted proof steps"
-  fi
-else
-  echo "   TLAPS FAILED (rc=$trc); unproved obligations at:"
-  grep -A1 "^File" tlapm.log | grep -B1 "ERROR" | grep "^File" | head -20
-  rc=1
-fi
-
-if [ $NEG -eq 1 ]; then
-  echo "== 3. negative control: step for AfterWokeNothing / EndWork without Fixed = TRUE must NOT be provable"
+  echo "== $P 1. TLC: IndInv + Safety are invariants of $BASE, N = 3, Fixed = TRUE"
   t0=$(date +%s)
-  timeout 300 tlapm --threads "$THREADS" --stretch "$STRETCH" --cleanfp --cache-dir "$S/cache-neg" \
-          SFI_IndInv_neg.tla > neg.log 2>&1
-  grep -E "obligations? (proved|failed)" neg.log
-  # the failed obligations must be exactly the two BY lines that do not cite FixedTrue
-  bad=0; nfail=0
-  for l in $(grep -A1 "^File" neg.log | grep -B1 "ERROR" | grep "^File" | grep -v "line 1, character 1 to" | sed 's/.*line \([0-9]*\),.*/\1/'); do
-    nfail=$((nfail+1))
-    sed -n "${l}p" SFI_IndInv_neg.tla | grep -q "BY NoneNotReq, SMTT" || bad=1
-  done
-  if [ $nfail -eq 2 ] && [ $bad -eq 0 ] && grep -Eq "2/[0-9]+ obligations failed" neg.log; then
-    echo "   negative control OK: both obligations rejected ($(( $(date +%s) - t0 )) s)"
+  timeout 300 tlc -workers "$THREADS" -metadir "$S/md-$P" -config "${P}_IndInv_3.cfg" "${P}_IndInv.tla" > "tlc-$P.log" 2>&1
+  grep -E "states generated|No error has been found|Error:|is violated|Assumption" "tlc-$P.log" | tail -2
+  if grep -q "Model checking completed. No error has been found." "tlc-$P.log"; then
+    echo "   TLC OK ($(( $(date +%s) - t0 )) s)"
   else
-    echo "   negative control FAILED (expected exactly the 2 marked obligations to fail)"; rc=1
+    echo "   TLC FAILED (see below)"; tail -30 "tlc-$P.log"; rc=1
   fi
-fi
 
+  echo "== $P 2. TLAPS: ${P}_IndInv_proofs, arbitrary N (empty cache, threads=$THREADS, stretch=$STRETCH)"
+  t0=$(date +%s)
+  timeout 400 tlapm --threads "$THREADS" --stretch "$STRETCH" --cleanfp --cache-dir "$S/cache-$P" \
+          "${P}_IndInv_proofs.tla" > "tlapm-$P.log" 2>&1
+  trc=$?
+  grep -E "obligations? (proved|failed)" "tlapm-$P.log"
+  if [ $trc -eq 0 ] && grep -Eq "All [0-9]+ obligations? proved" "tlapm-$P.log"; then
+    n=$(grep -Eo "All [0-9]+ obligations? proved" "tlapm-$P.log" | grep -Eo "[0-9]+" | head -1)
+    total=$((total + n)); parts="$parts $P=$n"
+    echo "   TLAPS OK ($(( $(date +%s) - t0 )) s)"
+    # no proof may be missing or omitted (tlapm --summary lists missing_proofs_count / omitted_proofs_count if any)
+    timeout 120 tlapm --summary --cache-dir "$S/cache-$P" "${P}_IndInv_proofs.tla" > "summary-$P.log" 2>&1
+    grep -E "obligations_count|missing_proofs_count|omitted_proofs_count" "summary-$P.log" | head -3
+    if ! grep -q "obligations_count" "summary-$P.log" || grep -Eq "missing_proof|omitted_proof" "summary-$P.log"; then
+      echo "   but the proof is incomplete (missing / omitted steps)"; rc=1
+    else
+      echo "   no missing / omitted proof steps"
+    fi
+  else
+    echo "   TLAPS FAILED (rc=$trc); unproved obligations at:"
+    grep -A1 "^File" "tlapm-$P.log" | grep -B1 "ERROR" | grep "^File" | head -20
+    rc=1
+  fi
+
+  if [ $NEG -eq 1 ]; then
+    echo "== $P 3. negative control: $NEGWHAT without Fixed = TRUE must NOT be provable"
+    t0=$(date +%s)
+    timeout 300 tlapm --threads "$THREADS" --stretch "$STRETCH" --cleanfp --cache-dir "$S/cache-neg-$P" \
+            "${P}_IndInv_neg.tla" > "neg-$P.log" 2>&1
+    grep -E "obligations? (proved|failed)" "neg-$P.log" | sed 's/^/   (negative control) /'
+    # the failed obligations must be exactly the two BY lines that do not cite FixedTrue
+    local bad=0 nfail=0 l
+    for l in $(grep -A1 "^File" "neg-$P.log" | grep -B1 "ERROR" | grep "^File" | grep -v "line 1, character 1 to" | sed 's/.*line \([0-9]*\),.*/\1/'); do
+      nfail=$((nfail+1))
+      sed -n "${l}p" "${P}_IndInv_neg.tla" | grep -q "BY NoneNotReq, SMTT" || bad=1
+    done
+    if [ $nfail -eq 2 ] && [ $bad -eq 0 ] && grep -Eq "2/[0-9]+ obligations failed" "neg-$P.log"; then
+      echo "   negative control OK: both *_NoFix obligations rejected, their *_Fix twins proved ($(( $(date +%s) - t0 )) s)"
+    else
+      echo "   negative control FAILED (expected exactly the 2 *_NoFix obligations to fail)"; rc=1
+    fi
+  fi
+}
+
+for w in $WHICH; do
+  case "$w" in
+    sfi) check_one SFI SingleFlightInbound  "step for AfterWokeNothing / EndWork" ;;
+    sfs) check_one SFS SingleFlightSubgraph "step for AfterWokeShared (request invariant and its NoForeignCancel consequence)" ;;
+  esac
+done
+
+echo "TOTAL: $total proof obligations discharged (${parts# })"
 [ $rc -eq 0 ] && echo "RESULT: PASS" || echo "RESULT: FAIL"
 exit $rc
